@@ -11,14 +11,15 @@ LEVEL = "model_checking"
 FUNCTIONS = [("pandapower.estimation.algorithm.matrix_base", "BaseAlgebra.create_hx"), ("pandapower.estimation.algorithm.matrix_base", "BaseAlgebra.create_rx"),
              ("pandapower.estimation.algorithm.matrix_base", "BaseAlgebra._merge_mask"), ("pandapower.pypower.pfsoln", "pfsoln"),
              ("pandapower.estimation.state_estimation", "estimate"),
-             ("pandapower.estimation.ppc_conversion", "_add_zero_injection"), ("pandapower.estimation.ppc_conversion", "_get_branch_map")]
+             ("pandapower.estimation.ppc_conversion", "_add_zero_injection"), ("pandapower.estimation.ppc_conversion", "_get_branch_map"),
+             ("pandapower.estimation.ppc_conversion", "_add_measurements_to_ppci"), ("pandapower.estimation.ppc_conversion", "_add_measurements_to_branch")]
 STUBS = ["the WLS iteration is not run: at the true state x the estimator's residual is z - h(x); h is executed for real and compared with what the power "
          "flow result code (pfsoln) reports for the same voltages - noise-free measurements taken from power flow results therefore give a zero residual",
          "the eppci container is a stub holding V (polar, symbolic), masks selecting every measurement type, and the Y matrices of the real makeYbus"]
 ASSUMPTIONS = ["3 buses / 2 branches with symbolic branch data, symbolic voltages in polar form, all measurement types at all locations"]
-OUTSIDE = ["WLS / LP / robust estimators' iterations, observability analysis, bad data detection, measurement conversion of the pandapower tables "
-           "(ppc_conversion: ids and sides are structural)", "af-wls extension"]
-BOUNDS = {"quick": "h(x) for p/q bus, p/q from/to, v, va, i from/to on 3 buses / 1 branch (thorough: 2 branches) + concrete reachability twin through estimate()", "thorough": "same"}
+OUTSIDE = ["WLS / LP / robust estimators' iterations, observability analysis, bad data detection, measurement conversion of the pandapower tables beyond the per-unit conversion "
+           "of current magnitudes on one transformer and one line (p/q/va units, merging of duplicate measurements, trafo3w sides)", "af-wls extension"]
+BOUNDS = {"quick": "current measurement units (trafo hv/lv, line from/to); h(x) for p/q bus, p/q from/to, v, va, i from/to on 3 buses / 1 branch (thorough: 2 branches) + concrete reachability twin through estimate()", "thorough": "same"}
 
 
 def make_hx(parts=("bus", "flow", "v", "i"), lean=False):
